@@ -676,6 +676,12 @@ class PLSSDesc:
 
         # Config object for passing down to Tract objects.
         handed_down_config = self.config.decompile_to_text()
+        if self.suppress_lot_divs:
+            # This setting has no keyword here and is read by the Tract
+            # objects only. Hand down the value in force on this object
+            # (which may have been configured at init, before a later
+            # assignment to `.config` replaced the stored Config).
+            handed_down_config = f"{handed_down_config},suppress_lot_divs"
 
         if segment is None:
             segment = self.segment
